@@ -347,8 +347,9 @@ def _work_ladder(args: tuple) -> dict:
         try:
             r = H.run_direct(pname, prof, root, interner, case)
         except TimeoutError:
-            findings.append({"clause": "OncePerKey:exponential_time", "case": case,
-                             "mapper": pname, "what": "more than 30 s of CPU on a ladder"})
+            # not a verdict (time is not what the property is about, and the
+            # small shapes decide OncePerKey): recorded in the evidence
+            stats.setdefault("over_budget", []).append(f"{pname} on {case}")
             continue
         finally:
             signal.setitimer(signal.ITIMER_VIRTUAL, 0)
@@ -358,9 +359,7 @@ def _work_ladder(args: tuple) -> dict:
         findings += r["findings"]
         records += r["records"]
         if time.process_time() - t0 > 20:
-            findings.append({"clause": "OncePerKey:exponential_time", "case": case,
-                             "mapper": pname,
-                             "what": f"{time.process_time() - t0:.0f}s of CPU on a ladder"})
+            stats.setdefault("over_budget", []).append(f"{pname} on {case}")
     fs, npairs = _equality_findings(
         H, lambda: H.build_t1(ch, rep, scheme, seed=seed(), allowed=H.LADDER_SCHEMES)[0], case)
     findings += fs
@@ -369,9 +368,7 @@ def _work_ladder(args: tuple) -> dict:
     t0 = time.process_time()
     _ = repr(root)
     if time.process_time() - t0 > 30:
-        findings.append({"clause": "OncePerKey:exponential_time", "case": case,
-                         "mapper": "pytato.stringifier.Reprifier",
-                         "what": f"repr took {time.process_time() - t0:.0f}s of CPU on a ladder"})
+        stats.setdefault("over_budget", []).append(f"repr on {case}")
     return {"records": records, "findings": findings, "stats": stats}
 
 
@@ -657,6 +654,7 @@ def main(tier: str, only: dict | None = None) -> int:
         "tlc_trace_runs": val.runs, "tlc_trace_wall_s": round(val.wall, 1),
         "witness_exclusive_edge_kinds": stats.get("witness_exclusive", {}),
         "witness_graphs_per_class": {k: sorted(v) for k, v in sorted(wit.items())},
+        "ladder_cases_over_cpu_budget": stats.get("over_budget", []),
         "entry_classes": stats.get("entry_classes", {}),
         "entry_exceptions": stats.get("entry_exceptions", {}),
     })
